@@ -6,6 +6,7 @@ import (
 	"go/token"
 	"go/types"
 	"os"
+	"path/filepath"
 	"sort"
 	"strings"
 
@@ -20,7 +21,7 @@ type Program struct {
 	Fset    *token.FileSet
 	Pkgs    []*packages.Package
 	SSA     *ssa.Program
-	SSAPkgs map[string]*ssa.Package // by package name (ast, parser, ...)
+	SSAPkgs map[string]*ssa.Package  // by package name (ast, parser, ...)
 	Funcs   map[string]*ssa.Function // key: "pkg.RelName" e.g. "interp.(*ExecEnv).Get"
 	Specs   *Specs
 
@@ -33,6 +34,25 @@ type Program struct {
 	OutDir         string
 	mutators       map[*ssa.Function]map[string]bool
 	regionsCache   *regionAnalysis
+	Yacc           []*yaccInfo
+}
+
+func (P *Program) readSrc(name string) []byte {
+	if P.srcCache == nil {
+		P.srcCache = map[string][]byte{}
+	}
+	if d, ok := P.srcCache[name]; ok {
+		return d
+	}
+	for _, y := range P.Yacc {
+		if y.Path == name {
+			P.srcCache[name] = []byte(y.Overlay)
+			return P.srcCache[name]
+		}
+	}
+	d, _ := os.ReadFile(name)
+	P.srcCache[name] = d
+	return d
 }
 
 // srcText returns the source text between two positions.
@@ -44,11 +64,7 @@ func (P *Program) srcText(a, b token.Pos) string {
 	if P.srcCache == nil {
 		P.srcCache = map[string][]byte{}
 	}
-	data, ok := P.srcCache[pa.Filename]
-	if !ok {
-		data, _ = os.ReadFile(pa.Filename)
-		P.srcCache[pa.Filename] = data
-	}
+	data := P.readSrc(pa.Filename)
 	if pa.Offset < 0 || pb.Offset > len(data) || pa.Offset > pb.Offset {
 		return ""
 	}
@@ -56,7 +72,6 @@ func (P *Program) srcText(a, b token.Pos) string {
 }
 
 func init() { _ = ast.Inspect }
-
 
 const modPath = "github.com/hattya/go.sh"
 
@@ -66,6 +81,22 @@ func loadProgram(repo string) (*Program, error) {
 		Dir:        repo,
 		BuildFlags: []string{"-tags=verif"},
 		Env:        append(os.Environ(), "GOFLAGS=-mod=mod", "GOPROXY=off", "GOSUMDB=off", "GOTOOLCHAIN=local", "CGO_ENABLED=0"),
+	}
+	// semantic actions of the two goyacc parsers, extracted mechanically
+	yaccs := []*yaccInfo{
+		extractYacc(filepath.Join(repo, "interp"), "interp", "arith.go", "arith.go.y"),
+		extractYacc(filepath.Join(repo, "parser"), "parser", "parser.go", "parser.go.y"),
+	}
+	cfg.Overlay = map[string][]byte{}
+	for _, y := range yaccs {
+		if y.Overlay != "" {
+			cfg.Overlay[y.Path] = []byte(y.Overlay)
+		}
+	}
+	for _, y := range yaccs {
+		for _, a := range y.Actions {
+			actionNames[fmt.Sprintf("%s.yyAction%d", y.Pkg, a.N)] = y.Pkg + ".action<" + y.production(a.N) + ">"
+		}
 	}
 	pkgs, err := packages.Load(cfg, "./...")
 	if err != nil {
@@ -83,6 +114,7 @@ func loadProgram(repo string) (*Program, error) {
 	prog, spkgs := ssautil.AllPackages(pkgs, ssa.GlobalDebug|ssa.InstantiateGenerics)
 	prog.Build()
 	P := &Program{
+		Yacc:    yaccs,
 		Repo:    repo,
 		Pkgs:    pkgs,
 		SSA:     prog,
@@ -114,7 +146,16 @@ func loadProgram(repo string) (*Program, error) {
 }
 
 // funcKey names a function as "pkg.RelName".
+// actionNames maps extracted action functions (pkg.yyActionN) to a name
+// built from their production, so that obligation names survive renumbering.
+var actionNames = map[string]string{}
+
 func funcKey(fn *ssa.Function) string {
+	if fn.Pkg != nil && strings.HasPrefix(fn.Name(), "yyAction") {
+		if n, ok := actionNames[fn.Pkg.Pkg.Name()+"."+fn.Name()]; ok {
+			return n
+		}
+	}
 	if fn.Pkg == nil {
 		if fn.Parent() != nil {
 			return funcKey(fn.Parent()) + "$anon"
@@ -190,7 +231,8 @@ func (P *Program) nodeText(n ast.Node) string {
 	}
 	start := P.Fset.Position(n.Pos())
 	end := P.Fset.Position(n.End())
-	data, err := os.ReadFile(start.Filename)
+	data := P.readSrc(start.Filename)
+	var err error
 	if err != nil || start.Offset < 0 || end.Offset > len(data) || start.Offset > end.Offset {
 		return ""
 	}
